@@ -15,6 +15,8 @@ pub mod c12;
 pub mod c13;
 pub mod c14;
 pub mod c15;
+pub mod c16;
+pub mod c17;
 pub mod c20;
 pub mod pairs;
 pub mod util;
@@ -38,6 +40,8 @@ pub fn run(ctx: &Ctx) -> PropResult {
         "C13" => c13::run(ctx),
         "C14" => c14::run(ctx),
         "C15" => c15::run(ctx),
+        "C16" => c16::run(ctx),
+        "C17" => c17::run(ctx),
         "C20" => c20::run(ctx),
         other => Err(format!("no monitor for {}", other)),
     }
